@@ -39,7 +39,8 @@ class C10(Prop):
                     'hashlib by every Base58Check case',
                     "Python int(hex,16) of hexlify(b) = big-endian value; '%x' % n = hex numeral; "
                     'slices k[0:1], k[1:-4], k[-4:] = take/drop with truncated subtraction']
-    assumptions = ['bitcoin.core.Hash returns at least 4 bytes (hypothesis hH of check_roundtrip / str theorems)',
+    assumptions = ['bitcoin.core.Hash returns at least 4 bytes (hypothesis hH of check_roundtrip; discharged for SHA-256d '
+                   'by check_roundtrip_sha256d via Crypto.hash256_length)',
                    'the alphabet is the one in B58_DIGITS (tied by T1 Tables.Base58)']
     rule = ('all byte strings of length <= 2 and all alphabet strings of length <= 3 (thorough: <= 4) exhaustively (both directions '
             'with the round trip observed); byte strings to 400 bytes with every leading-zero count; all-1 and '
